@@ -34,6 +34,10 @@ func deleteChildOperator(d *dataTreeNavigator, context Context, expressionNode *
 		childPath := candidatePath[len(candidatePath)-1]
 
 		if parentNode.Kind == MappingNode {
+			if candidate.Key != nil {
+				// the key as it is written: the path holds the parsed form of an integer key (1, 0x10)
+				childPath = candidate.Key.Value
+			}
 			deleteFromMap(candidate.Parent, childPath)
 		} else if parentNode.Kind == SequenceNode {
 			deleteFromArray(candidate.Parent, candidate, childPath)
